@@ -444,16 +444,26 @@ def h_autolayout(shape):
         from pulser.channels import Rydberg
         from pulser.devices import Device
 
-        dev = Device(name="dev", dimensions=2, rydberg_level=60, min_atom_distance=4, max_radial_distance=40, max_atom_num=20,
+        dev = Device(name="dev", dimensions=2, rydberg_level=60, min_atom_distance=4, max_radial_distance=40, max_atom_num=shape.get("maxn", 20),
                      max_layout_filling=fill, optimal_layout_filling=opt, min_layout_traps=shape.get("min_traps", 1),
                      max_layout_traps=shape.get("max_traps", 200),
                      channel_objects=(Rydberg.Global(12.0, 12.0, max_duration=1000),))
         pts = [(0.0, 0.0), (5.0, 0.0), (0.0, 5.0), (5.0, 5.0), (10.0, 0.0)][: shape["n"]]
+        if shape.get("bad") == "close":
+            pts[1] = (2.0, 0.0)
+        elif shape.get("bad") == "far":
+            pts[1] = (45.0, 0.0)
         reg = Register.from_coordinates(pts, center=False, prefix="q")
+        # region of finding F44: the register handed in is itself one the device refuses (too many atoms, too close, too far)
+        try:
+            dev.validate_register(reg)
+            inp.publish("input_register_itself_refused@k4:automatic_layout_register_is_accepted", False)
+        except Exception:  # noqa: BLE001
+            inp.publish("input_register_itself_refused@k4:automatic_layout_register_is_accepted", True)
         try:
             reg2 = reg.with_automatic_layout(dev)
-        except RuntimeError:
-            return []  # documented: may fail to find sites
+        except (RuntimeError, ValueError):
+            return []  # documented: may fail to find sites (or refuse the register)
         try:
             dev.validate_register(reg2)
             ok = True
@@ -514,6 +524,9 @@ def kernels(tier):
     for n in (2, 3) if quick else (2, 3, 4, 5):
         for opt in (False, True):
             ks.append(("autolayout", dict(n=n, opt=opt)))
+    # registers the device itself refuses: more atoms than it holds, two atoms too close, one too far out
+    for extra in (dict(n=4, maxn=3), dict(n=3, bad="close"), dict(n=3, bad="far")):
+        ks.append(("autolayout", dict(opt=False, **extra)))
     return ks
 
 
